@@ -30,7 +30,8 @@ _program_info = {}
 
 
 def get_program(features=(), env=None, debug_assertions=False):
-    key = mirgen.config_key(features, env or {}, debug_assertions)
+    ambient = {k: v for k, v in os.environ.items() if k.startswith('RUST_BIGDECIMAL_')}
+    key = mirgen.config_key(features, dict(ambient, **(env or {})), debug_assertions)
     if key not in _programs:
         text, info = mirgen.mir_text(features, env, debug_assertions)
         t0 = time.time()
@@ -233,17 +234,23 @@ REPLAY_CRATE = os.path.join(VERIF, 'replay')
 _replay_bin = {}
 
 
-def build_replay(profile='release'):
-    """(re)build the native replay binary against /repo's current tree; returns path of the binary"""
-    if profile in _replay_bin:
-        return _replay_bin[profile]
+def build_replay(profile='release', cfg_env=None):
+    """(re)build the native replay binary against /repo's current tree; returns path of the binary.
+    cfg_env: RUST_BIGDECIMAL_* build-time configuration (separate target directory)"""
+    key = (profile, tuple(sorted((cfg_env or {}).items())))
+    if key in _replay_bin:
+        return _replay_bin[key]
     from . import replaygen
     replaygen.generate()
-    tdir = os.path.join(mirgen.SCRATCH, 'replay-target')
+    tdir = os.path.join(mirgen.SCRATCH, 'replay-target' if not cfg_env else 'replay-target-cfg')
     cmd = ['cargo', 'build', '--offline', '--target-dir', tdir]
     if profile == 'release':
         cmd.append('--release')
     env = dict(os.environ)
+    for k in list(env):
+        if k.startswith('RUST_BIGDECIMAL_'):
+            del env[k]
+    env.update(cfg_env or {})
     env['CARGO_NET_OFFLINE'] = 'true'
     lock = open(os.path.join(mirgen.SCRATCH, 'replay-build.lock'), 'w')
     import fcntl
@@ -257,20 +264,20 @@ def build_replay(profile='release'):
         raise RuntimeError('replay build failed')
     src = os.path.join(tdir, 'release' if profile == 'release' else 'debug', 'replay')
     # private copy so that a concurrent rebuild by another check cannot swap the file under us
-    dst = os.path.join(mirgen.SCRATCH, 'replay-%s-%d' % (profile, os.getpid()))
+    dst = os.path.join(mirgen.SCRATCH, 'replay-%s-%d-%d' % (profile, os.getpid(), len(_replay_bin)))
     import shutil
     shutil.copy2(src, dst)
     import atexit
     atexit.register(lambda: os.path.exists(dst) and os.remove(dst))
-    _replay_bin[profile] = dst
+    _replay_bin[key] = dst
     return dst
 
 
-def replay_lines(lines, profile='release', timeout=120):
+def replay_lines(lines, profile='release', timeout=120, cfg_env=None):
     """send request lines to the native binary, return list of response lines (same order)"""
     if not lines:
         return []
-    binp = build_replay(profile)
+    binp = build_replay(profile, cfg_env)
     p = subprocess.run([binp], input=('\n'.join(lines) + '\n').encode(), stdout=subprocess.PIPE, stderr=subprocess.PIPE, timeout=timeout)
     out = p.stdout.decode().split('\n')
     if out and out[-1] == '':
